@@ -280,3 +280,65 @@ func VerifH_ReaderLongVarintHeader() {
 	sr.bytewise = vrt.Bool("bytewise")
 	compareWithReference(stream, max, sr, 3)
 }
+
+// floodReader serves an endless byte stream (a frame header announcing an enormous payload
+// followed by zeros), filling the offered buffer fully, half, or one byte at a time, and
+// checks the reader's buffer against the memory bound at every Read call.
+type floodReader struct {
+	rd     **Reader
+	hdr    []byte
+	pos    int
+	policy int
+	max    int
+	reads  int
+	worstCap int
+}
+
+func (f *floodReader) Read(p []byte) (int, error) {
+	f.reads++
+	rd := *f.rd
+	if cap(rd.buf) > f.worstCap {
+		f.worstCap = cap(rd.buf)
+	}
+	vrt.Assert(cap(rd.buf) <= 2*f.max+12344, "the read buffer never grows beyond 2*max + 12344 bytes")
+	vrt.Assert(len(rd.buf) <= f.max+maxFrameOverhead, "at most one incomplete frame's worth (max + overhead) is buffered when more is requested")
+	n := len(p)
+	switch f.policy {
+	case 1:
+		n = (n + 1) / 2
+	case 2:
+		n = 1
+	}
+	for i := 0; i < n; i++ {
+		if f.pos < len(f.hdr) {
+			p[i] = f.hdr[f.pos]
+		} else if i < 64 || f.policy == 2 {
+			p[i] = 0
+		}
+		f.pos++
+	}
+	return n, nil
+}
+
+// VerifH_ReaderMemoryBound: hostile endless input (one frame announcing 2^40 payload
+// bytes), for maximum sizes 1 .. 70000 (beyond the initial 4096-byte buffer, so the
+// growth path runs) and three read-fill policies: the reader ends with a protocol error
+// after buffering at most max + overhead bytes, and its buffer capacity stays within
+// 2*max + 12344 at every read.
+func VerifH_ReaderMemoryBound() {
+	max := []int{1, 64, 5000, 70000}[vrt.Choice("maxClass", 4)]
+	policy := vrt.Choice("fill", 3)
+	vrt.Assume(policy != 2 || max <= 64) // byte-wise only for the small maxima (loop length)
+	hdr := []byte{byte(KindMessage) << 1, 1, 1}
+	hdr = AppendVarint(hdr, 1<<40)
+	var rd *Reader
+	fr := &floodReader{rd: &rd, hdr: hdr, policy: policy, max: max}
+	rd = NewReaderWithOptions(fr, ReaderOptions{MaximumBufferSize: max})
+	_, err := rd.ReadPacket()
+	vrt.Assert(err != nil && classify(err) == evProtocol, "an oversized frame is rejected with a protocol error")
+	vrt.Assert(fr.pos <= 2*max+12344+max+maxFrameOverhead, "the reader stops consuming within the memory bound")
+	vrt.Cover("membound-end")
+	if fr.worstCap > 4096 {
+		vrt.Cover("membound-grew")
+	}
+}
